@@ -10,6 +10,7 @@
 // is the repository's text, re-extracted on every run.
 use vstd::prelude::*;
 use vstd::string::*;
+use vstd::utf8::*;
 verus! {
 
 //@@include common/textsize.rs
@@ -22,9 +23,17 @@ pub mod lsp_types {
     pub struct Position { pub line: u32, pub character: u32 }
     #[derive(Clone, Copy, PartialEq, Eq)]
     pub struct Range { pub start: Position, pub end: Position }
+    /// lsp_types::Color: opaque
+    #[verifier::external_body]
+    pub struct Color { _p: () }
+    /// lsp_types::ColorPresentationParams projected to the fields the slice reads (`range`, `color`)
+    pub struct ColorPresentationParams { pub range: Range, pub color: Color }
+    /// lsp_types::ColorPresentation: opaque (only the element type of the handler's result)
+    #[verifier::external_body]
+    pub struct ColorPresentation { _p: () }
     }
 }
-use lsp_types::{Position, Range};
+use lsp_types::{Position, Range, ColorPresentationParams, ColorPresentation};
 
 // ---------------------------------------------------------------------------------------------
 // rowan 0.16.1 (api.rs / cursor.rs / utility_types.rs): the syntax tree, opaque
@@ -168,15 +177,28 @@ impl<'a> LuaDocument<'a> {
             r matches Some(o) ==> self.line_index.line_offsets@[line as int] + o.raw <= self.text.spec_bytes().len(),   // c22_lineindex [C25.coloffset-in-document]
     { unimplemented!() }
 
-    /// unit c22_lineindex, item LuaDocument::to_rowan_range: its precondition (the `assert!(start <= end)` of
-    /// TextRange::new) and clause [C25.offset-in-document] (copied)
+    /// unit c22_lineindex, item LuaDocument::to_rowan_range (contract after fix 659629c: NO precondition on the client
+    /// range; a reversed range converts to nothing). Clauses copied: [C22.doc.to_rowan_range.none-iff-line-missing],
+    /// [C22.doc.to_rowan_range.ordered-range-converts], [C25.offset-in-document]; the last clause is the
+    /// `is_char_boundary` conjunct of `offset_ok` in [C22.doc.to_rowan_range.clamped] (a consequence, weaker).
     #[verifier::external_body]
     pub fn to_rowan_range(&self, range: lsp_types::Range) -> (r: Option<TextRange>)
         requires
             wf(self.line_index, self.text.spec_bytes()),
-            (range.start.line < self.line_index.line_offsets@.len() && range.end.line < self.line_index.line_offsets@.len()) ==> pos_le(range.start, range.end),
         ensures
+            (range.start.line >= self.line_index.line_offsets@.len() || range.end.line >= self.line_index.line_offsets@.len()) ==> r is None,
+            (range.start.line < self.line_index.line_offsets@.len() && range.end.line < self.line_index.line_offsets@.len() && pos_le(range.start, range.end)) ==> r is Some,
             r matches Some(rg) ==> rg.wf() && rg.end.raw <= self.text.spec_bytes().len(),   // c22_lineindex [C25.offset-in-document]
+            r matches Some(rg) ==> is_char_boundary(self.text.spec_bytes(), rg.start.raw as int) && is_char_boundary(self.text.spec_bytes(), rg.end.raw as int),
+    { unimplemented!() }
+
+    /// document.rs: `&self.text[range.start().into()..range.end().into()]` — std `str` range indexing panics when
+    /// begin > end, end > len, or an end point is not on a char boundary: that panic condition is the PRECONDITION.
+    #[verifier::external_body]
+    pub fn get_text_slice(&self, range: TextRange) -> (r: &str)
+        requires
+            range.start.raw <= range.end.raw && range.end.raw <= self.text.spec_bytes().len(),
+            is_char_boundary(self.text.spec_bytes(), range.start.raw as int) && is_char_boundary(self.text.spec_bytes(), range.end.raw as int),
     { unimplemented!() }
 }
 
@@ -189,7 +211,15 @@ pub struct SemanticModel { _p: () }
 pub uninterp spec fn sp_root(m: &SemanticModel) -> &LuaChunk;
 /// what `get_document()` returns (`db.get_vfs().get_document(&self.file_id)`)
 pub uninterp spec fn sp_document<'a>(m: &'a SemanticModel) -> LuaDocument<'a>;
+#[derive(Clone, Copy, PartialEq, Eq)]
+pub struct FileId { pub id: u32 }
+/// what `get_root_by_file_id(f)` returns (`vfs.get_syntax_tree(&f)?.get_chunk_node()`)
+pub uninterp spec fn sp_root_of_file(m: &SemanticModel, f: FileId) -> Option<LuaChunk>;
 impl SemanticModel {
+    #[verifier::external_body]
+    pub fn get_root_by_file_id(&self, file_id: FileId) -> (r: Option<LuaChunk>)
+        ensures r == sp_root_of_file(self, file_id),
+    { unimplemented!() }
     #[verifier::external_body]
     pub fn get_root(&self) -> (r: &LuaChunk)
         ensures r == sp_root(self),
@@ -219,6 +249,13 @@ pub open spec fn model_ok(m: &SemanticModel) -> bool {
     &&& doc_of_root(&sp_document(m), sp_root(m))
 }
 
+/// for a root fetched by FILE (no document involved): the chunk node of a file's tree is that tree's root node, at
+/// offset 0 (rowan `SyntaxNode::new_root`; `LuaSyntaxTree::get_chunk_node` casts the red root). A precondition of
+/// the inlay-hint slice; the upper bound there comes from the guard in the text alone.
+pub open spec fn file_root_at_zero(m: &SemanticModel, f: FileId) -> bool {
+    sp_root_of_file(m, f) matches Some(c) ==> sp_text_range(sp_syntax(&c)).start.raw == 0
+}
+
 // ---------------------------------------------------------------------------------------------
 // the call sites (statement slices of the real handlers; one whole fn)
 // ---------------------------------------------------------------------------------------------
@@ -239,6 +276,11 @@ pub open spec fn model_ok(m: &SemanticModel) -> bool {
 //@@ C25.site.selection_range
 //@@ C25.site.incoming_hierarchy_item
 //@@ C25.site.completion_resolve
+//@@ C25.site.inlay_hint_param_location
+
+// ---- client RANGE sites: `params.range` -> LuaDocument::to_rowan_range
+//@@ C25.site.range_formatting
+//@@ C25.site.color_presentation
 
 } // verus!
 fn main() {}
